@@ -117,7 +117,7 @@ def run_part(ck):
         lays.append(T.L4(ver, tag, mle, mlc, mfs, T.rbytes(rng, oldlen, 1), b""))
     for lay in lays:
         ls = T.lengths(rng, lay.cap, 4 if ck.thorough else 2)
-        if lay.cap > 5000:
+        if lay.kind == "t4" and lay.cap > 5000:
             rc = min(lay.mfs, 65536) - lay.nl     # what the 16 bit offset can reach
             ls = sorted(set([0, rc - 1, rc, rc + 1] + ([5, lay.cap, lay.cap + 1, 66000] if ck.thorough else [])))
             ck.count("t4: NDEF file of %s 65536 octets" % ("less than" if lay.mfs < 65536 else "exactly" if lay.mfs == 65536 else "more than"))
